@@ -12,16 +12,21 @@ from . import p_c01
 TECHNIQUE = 'static analysis: ownership/API rule of the history vector; freshness (no use of a view across a push/pop); must-pass-through and cut queries for breakpoints and flushes; event-language equality of the capturing writer; panic-site audit over everything reachable from debug::run'
 LEVEL = "other"
 EXPLANATION = (
-    "Ownership and pairing rules of the debugger decided on all CFG paths of debug::run: (SNAPSHOT) every step "
+    'Ownership and pairing rules of the debugger decided on all CFG paths of debug::run: (SNAPSHOT) every step '
     "executes on a clone of the newest history entry at that entry's own position and pushes the result as a new "
-    "entry; the history vector is only ever touched through push/pop/last/len, so older snapshots cannot be mutated; "
-    "`previous` pops exactly once and only when more than one entry exists; (BP) a breakpoint number entered by the "
-    "user is inserted only after it compared below the program length (the listing indexes the program with every "
-    "breakpoint); (ONCE) CustomWriter::write appends everything it is given, flush hands the whole buffer to the print "
-    "function exactly once and empties it on every path, the debugger flushes both writers after a single step, when "
-    "a run stops at a breakpoint and before its normal return, and program-requested exits flush first (C01.POP); "
-    "(NOPANIC) every panic-capable site of the debugger is mechanically discharged or in an audited table. The "
-    "equality of displayed and true state over whole command histories is NOT decided."
+    'entry; the history vector is only ever touched through push/pop/last/len, so older snapshots cannot be mutated; '
+    '`previous` pops exactly once and only when more than one entry exists; (BP) a breakpoint number entered by the '
+    'user is inserted only after it compared below the program length (the listing indexes the program with every '
+    'breakpoint); (ONCE) CustomWriter::write appends everything it is given, flush hands the whole buffer to the '
+    'print function exactly once and empties it on every path, the debugger flushes both writers after a single step, '
+    'when a run stops at a breakpoint and before its normal return, and program-requested exits flush first '
+    '(C01.POP); (NOPANIC) every panic-capable site of the debugger and of every crate function reachable from it '
+    '(listing, interpreter step, state display) is mechanically discharged or in an audited table; (FRESH) a value '
+    'read from the newest history entry is used before the history is pushed or popped again (no stale command index '
+    'after `previous`); (BPX) while running, membership of the newest position in the breakpoint set alone decides '
+    'between stopping and stepping, and `run` performs one step first; (EOFMARK) the prompt loop leaves on an empty '
+    'line, so the stdin reader must return every entered line with its terminator. The equality of displayed and true '
+    'state over whole command histories is NOT decided.'
 )
 ASSUMPTIONS = ["rustc MIR (nightly 1.97, mir-opt-level=0); unwind edges ignored", "execute_one is the interpreter step (C01)", "audited panic sites: justifications in rules/p_c11.py"]
 TRUSTED = ["rustc nightly MIR", "/verif/rules A-ORG/A-DOM/A-GEA/A-AUD"]
